@@ -66,7 +66,7 @@ def run(prog: Program, rep: Report, tier: str) -> None:
             rep.ob('C15-D2 fresh-id', fn.fq(), norm(c)[:90], fn.loc(c), not explicit,
                    'constructed without an id: the object receives a fresh address-based id' if not explicit else
                    'an explicit id is given to an object copied into the host graph: two uses of the same rule would collide')
-    rep.floor('C15-D2', n_ctor, 5)
+    rep.floor('C15-D2', n_ctor, 3)
     # D3a: the replaced edge is removed on every path
     rem = [n for n in muts if any(isinstance(x, ast.Call) and x.func.attr == 'remove_edge' and x.args and norm(x.args[0]) == E
                                   for x in ast.walk(cfg.nodes[n].stmt) if isinstance(x, ast.Call) and isinstance(x.func, ast.Attribute))]
@@ -142,6 +142,16 @@ def run(prog: Program, rep: Report, tier: str) -> None:
             for s in l.body:
                 if isinstance(s, ast.Assign) and isinstance(s.targets[0], ast.Subscript) and norm(s.targets[0].slice) == r_name and norm(s.value) == g_name:
                     ok = True
+    # the same map built at once: dict(zip(R.ext, E.nodes)) / m.update(zip(R.ext, E.nodes)) / {r: g for g, r in zip(E.nodes, R.ext)}
+    for c in [x for x in own_nodes(f.node) if isinstance(x, ast.Call) and (callee_last(x) == 'dict' or callee_last(x) == 'update')]:
+        if len(c.args) == 1 and isinstance(c.args[0], ast.Call) and callee_last(c.args[0]) == 'zip' and [norm(a) for a in c.args[0].args] == [f"{R}.ext", f"{E}.nodes"]:
+            ok = True
+    for c in [x for x in own_nodes(f.node) if isinstance(x, ast.DictComp) and len(x.generators) == 1 and not x.generators[0].ifs]:
+        g0 = c.generators[0]
+        if isinstance(g0.iter, ast.Call) and callee_last(g0.iter) == 'zip' and isinstance(g0.target, ast.Tuple) and len(g0.target.elts) == 2:
+            role = dict(zip([norm(a) for a in g0.iter.args], [norm(t) for t in g0.target.elts]))
+            if role.get(f"{R}.ext") == norm(c.key) and role.get(f"{E}.nodes") == norm(c.value):
+                ok = True
     rep.ob('C15-D4 shape-preserved', f.fq(), f"node_map[external] = attachment for zip({E}.nodes, {R}.ext)", f.loc(), ok,
            'externals are identified with the attachment nodes position by position' if ok else 'no loop maps each external node of the replacement to the attachment node at the same position')
     derive_rules(rep, prog)
